@@ -534,6 +534,7 @@ type FuncSpec struct {
 	OnlyCalls  []OnlyCall // external-effect frame: callees matching Frag must be one of Allowed
 	Loops      map[int]*LoopSpec
 	NoPanic    bool
+	NoLiterals bool // the function contains no function literal (what it installs is a named function or method)
 	Overflow   bool
 	Pure       bool
 	Trusted    bool // contract assumed, body not verified (listed)
@@ -644,7 +645,7 @@ var clauseKeywords = map[string]bool{
 	"property": true, "requires": true, "ensures": true, "nopanic": true, "overflow": true,
 	"untrusted": true, "loop": true, "modifies": true, "assume": true, "trusted": true,
 	"fresh": true, "params": true, "results": true, "let": true, "assert": true, "var": true,
-	"dropped": true, "param": true, "end": true, "checks": true, "effect": true, "callpre": true, "noframe": true, "lock": true, "permtable": true, "wirenames": true, "guards": true, "require": true, "closed": true, "only": true, "havoc": true,
+	"dropped": true, "param": true, "end": true, "checks": true, "effect": true, "callpre": true, "noframe": true, "lock": true, "permtable": true, "wirenames": true, "guards": true, "require": true, "closed": true, "only": true, "havoc": true, "noliterals": true,
 }
 
 // OnlyCall is one `only` clause.
@@ -825,6 +826,8 @@ func (c *Contracts) parseContractFile(path, pkgPath string) error {
 			cur.Effects = append(cur.Effects, cl)
 		case "nopanic":
 			cur.NoPanic = true
+		case "noliterals":
+			cur.NoLiterals = true
 		case "overflow":
 			cur.Overflow = true
 		case "trusted":
